@@ -7,6 +7,7 @@ _UNIT_MODULES = [
     "units.u_resolver.unit",
     "units.u_bitvec.unit",
     "units.u_output.unit",
+    "units.u_charcount.unit",
 ]
 
 UNITS = {}
@@ -21,7 +22,7 @@ REPORT_TB = ["ASSUMED contracts of diagn::Report methods (units/contracts_report
 RESOLVER_TB = ["ASSUMED contracts of unverified customasm code used by U-resolver/U-iterate: asm::resolver::eval / eval_certain ('Err is loud, Ok is clean'), resolve_constant / resolve_instruction / resolve_data_element (the per-item pass contract), ResolveIterator::new/next (flags copied; the yielded node refers to defined items), Value::expect_error_or_bigint / expect_bool, DefList::get_mut (frame), derived PartialEq of expr::Value",
                "ghost event `ItemDefs::confirmed()` is produced only by resolve_once's stub clause [confirms] (a name for 'a no-guess pass answered Resolved'); termination of resolve_once's loop is not proved"]
 
-ALL_UNITS = ["U-overlap", "U-bigint", "U-constrain", "U-resolver", "U-iterate", "U-bitvec", "U-output"]
+ALL_UNITS = ["U-overlap", "U-bigint", "U-constrain", "U-resolver", "U-iterate", "U-bitvec", "U-output", "U-charcount"]
 
 PROPERTIES = {
     "C01": {
@@ -53,6 +54,12 @@ PROPERTIES = {
         "claim": "BitVec::write_bigint_with_span / mark_span append exactly one span record (offset, size, address, source span) per emitted item, and for written items the bits at [offset, offset+size) are the item's value MSB-first.",
         "not_reached": "the listing and symbol-table text (format_annotated, format_tcgame, format_addrspan, symbol_format): String/format! code; ordering of rows (sort_by)",
         "trusted_base": NUMBIGINT_TB,
+    },
+    "C13": {
+        "units": ["U-charcount"],
+        "claim": "For every character sequence and every byte index: get_line_column_at_index returns the 0-based line (newlines before) and character column (characters since the last newline) of the character that starts at that byte index, whatever the byte lengths of the characters before it; get_index_range_of_line returns the byte offsets of the first and one-past-last character of the requested line (both character boundaries, begin <= end); get_line_count = 1 + number of newlines. Span::join is the hull of two spans of one file with dummy spans neutral; before/after/length/location as stated.",
+        "not_reached": "that spans are created on character boundaries (syntax::Walker), that CharCounter::new's `chars` is the character sequence of `src` and str::get succeeds on boundaries (std), that the first error is on the faulty line (whole pipeline), included files, the message tree printer",
+        "trusted_base": ["vstd's specification of char::len_utf8 (1..=4 bytes)", "CharCounter::wf: 4 * chars.len() fits in usize (allocation limit of Vec<char>) is a precondition not checked at the call sites"],
     },
     "C09": {
         "units": ["U-iterate", "U-resolver"],
